@@ -124,6 +124,9 @@ class Prop(object):
 
         def sig(key, typ, subj, extra=b'', unhashed_extra=b''):
             hashed = rsig.sp_created(now()) + rsig.sp_issuer_fpr(rkeys.fingerprint(key)) + extra
+            if shape.get('lapsed') and typ in (0x18, 0x1F, 0x28):
+                # a key-level signature whose own lifetime (signature expiration time) has run out long ago: it is still part of the key
+                hashed += wire.subpacket(3, (86400).to_bytes(4, 'big'))
             if shape.get('nonminimal'):
                 # legal but non-minimal encodings another producer may use: five-octet subpacket length, a second flag octet
                 hashed += wire.subpacket(26, b'https://example.org/p', width=5) + wire.subpacket(30, b'\x01\x00')
